@@ -7,7 +7,7 @@ import ast
 import re
 
 from ..astutil import (call_attr, const_str, get_arg, iter_calls, iter_stores, propagate, single_assign_env, walk_local)
-from ..flow import Flow, always_exits
+from ..flow import Flow, always_exits, path_conditions
 from ..index import AnalysisError, AnchorMissing, dotted, norm
 
 DB = "armi.bookkeeping.db.database"
@@ -441,6 +441,48 @@ def r5_linked_dims(idx, r):
     r.require(okr, "resolve", res, node=link, msg="resolveLinkedDims must install _DimensionLink((components[<group 1>], <group 2>)) parsed with the link regex")
 
 
+def r6_jagged(idx, r):
+    """Ragged parameter data is part of the reactor state: same offset/bookkeeping rule as C05 R05.6."""
+    from .c05 import r6_jagged_offsets
+
+    r6_jagged_offsets(idx, r)
+
+
+def r7_locator_kept_on_add(idx, r):
+    """_compose locates each child on its parent's grid and then calls parent.add(child) WITHOUT a location:
+    every add override that takes an optional location must fall back to the child's own locator."""
+    comp = idx.cls("armi.reactor.composites.Composite")
+    n = 0
+    for c in idx.subclasses(comp):
+        f = c.methods.get("add")
+        if f is None or len(f.params()) < 3:
+            continue
+        a = f.node.args
+        if not a.defaults or norm(a.defaults[-1]) != "None":
+            continue
+        obj, loc = f.params()[1], f.params()[2]
+        n += 1
+        uses = []
+        for x in walk_local(f.node):
+            if isinstance(x, ast.Assign) and any(norm(t) == loc for t in x.targets) and f"{obj}.spatialLocator" in norm(x.value):
+                uses.append(x)
+        r.require(bool(uses), f"{c.name}.add:falls-back-to-child-locator", f, node=uses[0] if uses else None,
+                  msg=f"when no location is passed, {c.name}.add must place `{obj}` at its own locator (`{loc} = ... {obj}.spatialLocator`): Database._compose relies on it; otherwise loaded objects are re-racked")
+        gen = [x for x in iter_calls(f.node) if call_attr(x) in ("_getNextLocation",)]
+        for g in gen:
+            conds = [norm(t) for t, p in path_conditions(f.node, g)]
+            pol = [p for t, p in path_conditions(f.node, g)]
+            env = single_assign_env(f.node)
+            full = " ".join(norm(propagate(t, env)) for t, p in path_conditions(f.node, g))
+            r.require(f"{obj}.spatialLocator" in full, f"{c.name}.add:next-free-slot-only-without-locator", f, node=g,
+                      msg="a fresh slot may be chosen only when the child has no locator on this grid")
+    if n < 2:
+        raise AnalysisError("add overrides with an optional location not found")
+    cm = idx.method(DB + ".Database", "_compose")
+    add = next((c for c in iter_calls(cm.node) if dotted(c.func) == "comp.add"), None)
+    r.require(add is not None and len(add.args) == 1, "_compose:add-without-location", cm, node=add, msg="children are added with their already assigned locator (no explicit location)")
+
+
 def run(idx, chk):
     chk.explanation = (
         "C04: Layout.writeToDB/_readLayout, _createLayout/_initComps/_compose, _packLocationsV3/_unpackLocationsV2, "
@@ -459,5 +501,9 @@ def run(idx, chk):
                  lambda r: r3_location_codes(idx, r), floor=12, necessary="grid locations (incl. multi-location pins and free coordinates) are stored as code + rows")
     chk.run_rule("R04.4", "GridParameters field order = StructuredGrid.__init__ order = reduce() order = reader call order; each from its own attribute",
                  lambda r: r4_grid_ctor(idx, r), floor=19, necessary="a grid is rebuilt as cls(*stored); a permuted or mis-sourced field rebuilds another grid")
+    chk.run_rule("R04.6", "ragged parameter arrays: offset advances by the number of values appended; each entry records (offset and shape) xor none", lambda r: r6_jagged(idx, r), floor=6,
+                 necessary="every assigned persistent parameter (incl. ragged pin-level arrays) loads back equal")
+    chk.run_rule("R04.7", "add() overrides with an optional location keep a child's own locator (as Database._compose relies on)", lambda r: r7_locator_kept_on_add(idx, r), floor=3,
+                 necessary="loaded objects sit at the grid locations they were saved at")
     chk.run_rule("R04.5", "linked dimensions: written '{name}.{dim}' matches COMPONENT_LINK_REGEX; reader restores link or value; resolve installs the link",
                  lambda r: r5_linked_dims(idx, r), floor=7, necessary="dimensions (linked or not) must come back as they were")
